@@ -46,6 +46,12 @@ class NetconfBase:
     BASE_11 = 2
 
 
+class _HelloMessage(str):
+    """The client's <hello>. It always goes out in end-of-message framing
+    (:rfc:`6242`, section 4.1), also when it is taken off the queue only after
+    the server's <hello> has selected base:1.1 for the rest of the session."""
+
+
 class Session(Thread):
 
     "Base class for use by transport protocol implementations."
@@ -112,7 +118,7 @@ class Session(Thread):
         self.add_listener(NotificationHandler(self._notification_q))
         listener = HelloHandler(ok_cb, err_cb)
         self.add_listener(listener)
-        self.send(HelloHandler.build(self._client_capabilities, self._device_handler))
+        self.send(_HelloMessage(HelloHandler.build(self._client_capabilities, self._device_handler)))
         self.logger.debug('starting main loop')
         self.start()
         # we expect server's hello message, if server doesn't responds in 60 seconds raise exception
@@ -219,8 +225,9 @@ class Session(Thread):
                 
                 if not q.empty() and self._send_ready():
                     self.logger.debug("Sending message")
-                    data = q.get().encode()
-                    if self._base == NetconfBase.BASE_11:
+                    message = q.get()
+                    data = message.encode()
+                    if self._base == NetconfBase.BASE_11 and not isinstance(message, _HelloMessage):
                         data = b"%s%s%s" % (start_delim(len(data)), data, END_DELIM)
                     else:
                         data = b"%s%s" % (data, MSG_DELIM)
